@@ -200,9 +200,11 @@ structure TFrame (k : Nat) (w w' : World) : Prop where
   phase : w'.phase = w.phase
   stopped : w'.stopped = w.stopped
   ctxCancelled : w'.ctxCancelled = w.ctxCancelled
+  cfg : w'.cfg = w.cfg
+  connectReturned : w'.connectReturned = w.connectReturned
 
 theorem TFrame.refl (k : Nat) (w : World) : TFrame k w w :=
-  ⟨rfl, rfl, rfl, rfl, rfl, rfl, rfl, fun _ h => h, fun _ => ⟨rfl, rfl⟩, rfl, rfl, rfl, rfl⟩
+  ⟨rfl, rfl, rfl, rfl, rfl, rfl, rfl, fun _ h => h, fun _ => ⟨rfl, rfl⟩, rfl, rfl, rfl, rfl, rfl, rfl⟩
 
 theorem TFrame.trans {k : Nat} {a b c : World} (h1 : TFrame k a b) (h2 : TFrame k b c) :
     TFrame k a c where
@@ -224,6 +226,8 @@ theorem TFrame.trans {k : Nat} {a b c : World} (h1 : TFrame k a b) (h2 : TFrame 
   phase := h2.phase.trans h1.phase
   stopped := h2.stopped.trans h1.stopped
   ctxCancelled := h2.ctxCancelled.trans h1.ctxCancelled
+  cfg := h2.cfg.trans h1.cfg
+  connectReturned := h2.connectReturned.trans h1.connectReturned
 
 /-- the sub/unsub call an entry of the retry queue stands for -/
 def entryCall : Entry → Option SubCall
@@ -317,7 +321,7 @@ theorem send_spec (w : World) (k : Nat) (p : Pkt) (waits : Bool) :
     | nil =>
       simp only [nextFault, hf]
       exact ⟨⟨rfl, rfl, rfl, rfl, rfl, rfl, rfl, fun j h => (alive_logPkt w k p _ j) ▸ h,
-        fun h => (by rw [ha] at h; cases h), by simp, rfl, rfl, rfl⟩, rfl, rfl, rfl, by simp, fun _ => rfl,
+        fun h => (by rw [ha] at h; cases h), by simp, rfl, rfl, rfl, rfl, rfl⟩, rfl, rfl, rfl, by simp, fun _ => rfl,
         Or.inr (process_subs _ _), fun _ _ => process_subs _ _⟩
     | cons f rest =>
       simp only [nextFault, hf]
@@ -327,36 +331,36 @@ theorem send_spec (w : World) (k : Nat) (p : Pkt) (waits : Bool) :
       have hd : (getConn w k).alive = false → ∀ (P : Prop), P := fun h => by rw [ha] at h; cases h
       cases f with
       | ok =>
-        exact ⟨⟨rfl, rfl, rfl, rfl, rfl, rfl, rfl, hal, fun h => hd h _, by simp, rfl, rfl, rfl⟩, rfl, rfl, rfl, by simp,
+        exact ⟨⟨rfl, rfl, rfl, rfl, rfl, rfl, rfl, hal, fun h => hd h _, by simp, rfl, rfl, rfl, rfl, rfl⟩, rfl, rfl, rfl, by simp,
           fun _ => rfl, Or.inr (process_subs _ _), fun _ _ => process_subs _ _⟩
       | writeFail =>
         exact ⟨⟨rfl, rfl, rfl, rfl, rfl, rfl, rfl, fun j h => hal j (alive_kill _ _ j h),
-          fun h => hd h _, by simp, rfl, rfl, rfl⟩, rfl, rfl, rfl, by simp, fun _ => rfl, Or.inl rfl, by simp⟩
+          fun h => hd h _, by simp, rfl, rfl, rfl, rfl, rfl⟩, rfl, rfl, rfl, by simp, fun _ => rfl, Or.inl rfl, by simp⟩
       | lostReq =>
         refine ⟨⟨rfl, rfl, rfl, rfl, rfl, rfl, rfl, fun j h => hal j (alive_kill _ _ j h),
-          fun h => hd h _, by simp, rfl, rfl, rfl⟩, rfl, rfl, rfl, ?_, fun _ => rfl, Or.inl rfl, ?_⟩
+          fun h => hd h _, by simp, rfl, rfl, rfl, rfl, rfl⟩, rfl, rfl, rfl, ?_, fun _ => rfl, Or.inl rfl, ?_⟩
         · cases waits <;> simp
         · intro hw; simp [hw]
       | lostAck =>
         refine ⟨⟨rfl, rfl, rfl, rfl, rfl, rfl, rfl, fun j h => hal j (alive_kill _ _ j h),
-          fun h => hd h _, by simp, rfl, rfl, rfl⟩, rfl, rfl, rfl, ?_, fun _ => rfl, Or.inr (process_subs _ _), ?_⟩
+          fun h => hd h _, by simp, rfl, rfl, rfl, rfl, rfl⟩, rfl, rfl, rfl, ?_, fun _ => rfl, Or.inr (process_subs _ _), ?_⟩
         · cases waits <;> simp
         · intro hw; simp [hw]
       | silent =>
         cases waits with
         | false =>
-          exact ⟨⟨rfl, rfl, rfl, rfl, rfl, rfl, rfl, hal, fun h => hd h _, by simp, rfl, rfl, rfl⟩, rfl, rfl, rfl, by simp,
+          exact ⟨⟨rfl, rfl, rfl, rfl, rfl, rfl, rfl, hal, fun h => hd h _, by simp, rfl, rfl, rfl, rfl, rfl⟩, rfl, rfl, rfl, by simp,
             fun _ => rfl, Or.inr (process_subs _ _), by simp⟩
         | true =>
           simp only [not_true_eq_false, if_false]
           split
-          · exact ⟨⟨rfl, rfl, rfl, rfl, rfl, rfl, rfl, hal, fun h => hd h _, by simp, rfl, rfl, rfl⟩, rfl, rfl, rfl, by simp,
+          · exact ⟨⟨rfl, rfl, rfl, rfl, rfl, rfl, rfl, hal, fun h => hd h _, by simp, rfl, rfl, rfl, rfl, rfl⟩, rfl, rfl, rfl, by simp,
               fun _ => rfl, Or.inr (process_subs _ _), by simp⟩
-          · exact ⟨⟨rfl, rfl, rfl, rfl, rfl, rfl, rfl, hal, fun h => hd h _, by simp, rfl, rfl, rfl⟩, rfl, rfl, rfl,
+          · exact ⟨⟨rfl, rfl, rfl, rfl, rfl, rfl, rfl, hal, fun h => hd h _, by simp, rfl, rfl, rfl, rfl, rfl⟩, rfl, rfl, rfl,
               fun _ => rfl, by simp, Or.inr (process_subs _ _), by simp⟩
   · simp only [ha]
     exact ⟨⟨rfl, rfl, rfl, rfl, rfl, rfl, rfl, fun j h => (alive_logPkt w k p _ j) ▸ h,
-      fun _ => ⟨rfl, rfl⟩, by simp, rfl, rfl, rfl⟩, rfl, rfl, rfl, by simp, fun _ => rfl, Or.inl rfl, by simp⟩
+      fun _ => ⟨rfl, rfl⟩, by simp, rfl, rfl, rfl, rfl, rfl⟩, rfl, rfl, rfl, by simp, fun _ => rfl, Or.inl rfl, by simp⟩
 
 /-- a silent step: nothing of interest changes -/
 structure PreFrame (k : Nat) (w w' : World) : Prop where
@@ -387,7 +391,7 @@ theorem preFrame_ctr (w : World) (k : Nat) (n : Nat) :
     PreFrame k w (setConn w k { getConn w k with ctr := n }) :=
   ⟨⟨rfl, rfl, rfl, rfl, rfl, rfl, rfl,
     fun j h => (alive_setConn_same w k { getConn w k with ctr := n } rfl j) ▸ h,
-    fun _ => ⟨rfl, rfl⟩, by simp, rfl, rfl, rfl⟩, rfl, rfl, rfl, rfl, rfl⟩
+    fun _ => ⟨rfl, rfl⟩, by simp, rfl, rfl, rfl, rfl, rfl⟩, rfl, rfl, rfl, rfl, rfl⟩
 
 /-- the common tail of `subAttempt`, `unsubAttempt`, `relAttempt` -/
 def finish (r : World × Sent) (rq : Req) (h : Entry) : World × Outcome :=
@@ -404,7 +408,7 @@ theorem finish_spec {k : Nat} {p : Pkt} {w : World} {r : World × Sent} (rq : Re
   cases s with
   | acked =>
     exact ⟨⟨fr.taskQ, fr.accepted, fr.initialized, fr.cli, fr.goroutine, fr.gConnected, fr.connReady,
-      fr.alive, fr.dead, fr.len, fr.phase, fr.stopped, fr.ctxCancelled⟩, hs.retryQ, hs.subEst, hs.closeAfterTask, by simp [finish],
+      fr.alive, fr.dead, fr.len, fr.phase, fr.stopped, fr.ctxCancelled, fr.cfg, fr.connectReturned⟩, hs.retryQ, hs.subEst, hs.closeAfterTask, by simp [finish],
       fun _ => hs.nstuck (by simp), by simp [finish], by simp [finish],
       Or.inr (hs.acked rfl rfl), fun _ => hs.acked rfl rfl⟩
   | stuck =>
@@ -479,7 +483,7 @@ theorem pubFinish_spec {k m qos id : Nat} {dup b : Bool} {w : World} {r : World 
     · exact (relAttempt_spec w2 k m id).pre pf
     · split
       · exact ⟨⟨fr.taskQ, fr.accepted, fr.initialized, fr.cli, fr.goroutine, fr.gConnected,
-          fr.connReady, fr.alive, fr.dead, fr.len, fr.phase, fr.stopped, fr.ctxCancelled⟩, hs.retryQ, hs.subEst, hs.closeAfterTask, by simp,
+          fr.connReady, fr.alive, fr.dead, fr.len, fr.phase, fr.stopped, fr.ctxCancelled, fr.cfg, fr.connectReturned⟩, hs.retryQ, hs.subEst, hs.closeAfterTask, by simp,
           fun _ => hst, by simp, by simp, Or.inl hsub, fun _ => hsub⟩
       · exact ⟨fr, hs.retryQ, hs.subEst, hs.closeAfterTask, by simp,
           fun _ => hst, by simp, by simp, Or.inl hsub, fun _ => hsub⟩
@@ -522,7 +526,7 @@ theorem pubAttempt_spec (w : World) (k m qos : Nat) (dup : Bool) :
     exact ⟨⟨rfl, rfl, rfl, rfl, rfl, rfl, rfl,
       fun j h => (alive_setConn_same { w with pid := w.pid ++ [(m, (newID (getConn w k).ctr).2)] } k
         { getConn w k with ctr := (newID (getConn w k).ctr).1 } rfl j) ▸ h,
-      fun _ => ⟨rfl, rfl⟩, by simp, rfl, rfl, rfl⟩, rfl, rfl, rfl, rfl, rfl⟩
+      fun _ => ⟨rfl, rfl⟩, by simp, rfl, rfl, rfl, rfl, rfl⟩, rfl, rfl, rfl, rfl, rfl⟩
 
 /-- what a first-transmission closure (attempt + `absorb`) standing for the call `oc` does -/
 structure FirstSpec (k : Nat) (oc : Option SubCall) (w w' : World) : Prop where
@@ -554,7 +558,7 @@ theorem absorb_spec {k : Nat} {oc : Option SubCall} {w : World} {r : World × Ou
       | inr h => exact h
     | some h =>
       refine ⟨⟨fr.taskQ, fr.accepted, fr.initialized, fr.cli, fr.goroutine, fr.gConnected,
-        fr.connReady, fr.alive, fr.dead, fr.len, fr.phase, fr.stopped, fr.ctxCancelled⟩, a.subEst, Or.inr ⟨a.nstuck (by simp), Or.inr ⟨h, ?_,
+        fr.connReady, fr.alive, fr.dead, fr.len, fr.phase, fr.stopped, fr.ctxCancelled, fr.cfg, fr.connectReturned⟩, a.subEst, Or.inr ⟨a.nstuck (by simp), Or.inr ⟨h, ?_,
         a.handle h e rfl, rfl, a.subs⟩⟩⟩
       show w1.retryQ ++ [h] = w.retryQ ++ [h]
       rw [a.retryQ]
@@ -640,9 +644,11 @@ theorem tframe_of_eqs {k : Nat} {w w' : World} (h1 : w'.taskQ = w.taskQ) (h2 : w
     (h3 : w'.initialized = w.initialized) (h4 : w'.cli = w.cli) (h5 : w'.goroutine = w.goroutine)
     (h6 : w'.gConnected = w.gConnected) (h7 : w'.connReady = w.connReady) (h8 : w'.conns = w.conns)
     (h9 : w'.broker = w.broker) (h10 : w'.stuck = w.stuck) (h11 : w'.phase = w.phase) (h12 : w'.stopped = w.stopped)
-    (h13 : w'.ctxCancelled = w.ctxCancelled) :
+    (h13 : w'.ctxCancelled = w.ctxCancelled) (h14 : w'.cfg = w.cfg)
+    (h15 : w'.connectReturned = w.connectReturned) :
     TFrame k w w' :=
-  ⟨h1, h2, h3, h4, h5, h6, h7, fun j h => by simpa [getConn, h8] using h, fun _ => ⟨by rw [h9], h10⟩, by rw [h8], h11, h12, h13⟩
+  ⟨h1, h2, h3, h4, h5, h6, h7, fun j h => by simpa [getConn, h8] using h, fun _ => ⟨by rw [h9], h10⟩, by rw [h8], h11, h12, h13,
+    h14, h15⟩
 
 /-- shared shape of the three request tasks: update the record, then transmit or queue -/
 theorem reqTask_spec {k : Nat} {oc : Option SubCall} {w w1 wf : World} (q : Entry)
@@ -662,7 +668,7 @@ theorem reqTask_spec {k : Nat} {oc : Option SubCall} {w w1 wf : World} (q : Entr
       rw [hP1] at this
       exact this
   · rw [if_neg hem]
-    refine ⟨h1.trans (tframe_of_eqs rfl rfl rfl rfl rfl rfl rfl rfl rfl rfl rfl rfl rfl), h1e.1, h1e.2,
+    refine ⟨h1.trans (tframe_of_eqs rfl rfl rfl rfl rfl rfl rfl rfl rfl rfl rfl rfl rfl rfl rfl), h1e.1, h1e.2,
       fun _ => ⟨?_, h1b ▸ hb⟩⟩
     show (pendOf (w1.retryQ ++ [q])).foldl netStep (Bm w1) = _
     rw [pendOf_append_single, hq, ← hP1]
@@ -673,7 +679,7 @@ theorem subscribeTask_spec (w : World) (k : Nat) (s : List Subscription)
     ReqSpec k (some (.sub s)) w (subscribeTask w k s) := by
   have hsp := applySubs_spec w.subEst s he
   exact reqTask_spec (w1 := { w with subEst := applySubs w.subEst s }) (.qSub s) rfl hb
-    (tframe_of_eqs rfl rfl rfl rfl rfl rfl rfl rfl rfl rfl rfl rfl rfl) rfl rfl ⟨hsp.1, hsp.2⟩
+    (tframe_of_eqs rfl rfl rfl rfl rfl rfl rfl rfl rfl rfl rfl rfl rfl rfl rfl) rfl rfl ⟨hsp.1, hsp.2⟩
     (firstSub_spec _ k s)
 
 theorem runTask_req_spec (w : World) (k : Nat) (r : Req)
@@ -684,7 +690,7 @@ theorem runTask_req_spec (w : World) (k : Nat) (r : Req)
   | unsub ts =>
     have hsp := applyUnsubs_spec w.subEst ts he
     exact reqTask_spec (w1 := { w with subEst := applyUnsubs w.subEst ts }) (.qUnsub ts) rfl hb
-      (tframe_of_eqs rfl rfl rfl rfl rfl rfl rfl rfl rfl rfl rfl rfl rfl) rfl rfl ⟨hsp.1, hsp.2⟩
+      (tframe_of_eqs rfl rfl rfl rfl rfl rfl rfl rfl rfl rfl rfl rfl rfl rfl rfl) rfl rfl ⟨hsp.1, hsp.2⟩
       (firstUnsub_spec _ k ts)
   | pub m qos =>
     by_cases hq : 0 < qos
@@ -717,8 +723,8 @@ theorem subscribeTask_frame (w : World) (k : Nat) (s : List Subscription) :
   simp only [subscribeTask]
   split
   · exact (tframe_of_eqs (w := w) (w' := { w with subEst := applySubs w.subEst s })
-      rfl rfl rfl rfl rfl rfl rfl rfl rfl rfl rfl rfl rfl).trans (firstSub_spec _ k s).frame
-  · exact tframe_of_eqs rfl rfl rfl rfl rfl rfl rfl rfl rfl rfl rfl rfl rfl
+      rfl rfl rfl rfl rfl rfl rfl rfl rfl rfl rfl rfl rfl rfl rfl).trans (firstSub_spec _ k s).frame
+  · exact tframe_of_eqs rfl rfl rfl rfl rfl rfl rfl rfl rfl rfl rfl rfl rfl rfl rfl
 
 theorem resubLoop_frame (l : SubList) (w : World) (k : Nat) : TFrame k w (resubLoop w k l) := by
   induction l generalizing w with
@@ -762,7 +768,7 @@ theorem runTask_resub_spec (w : World) (k : Nat)
         ∀ t, Pm (runTask w k .resubscribe) t = (Em w t).or (Pm w t)) := by
   have sp := resubLoop_spec w.subEst { w with subEst := [] } k hb noDupTopics_nil
   refine ⟨(tframe_of_eqs (w := w) (w' := { w with subEst := [] })
-    rfl rfl rfl rfl rfl rfl rfl rfl rfl rfl rfl rfl rfl).trans sp.1, fun hs => ?_⟩
+    rfl rfl rfl rfl rfl rfl rfl rfl rfl rfl rfl rfl rfl rfl rfl).trans sp.1, fun hs => ?_⟩
   obtain ⟨a, b, c, d⟩ := sp.2 hs
   refine ⟨a, b, ?_, fun t => ?_⟩
   · show Em (resubLoop { w with subEst := [] } k w.subEst) = _
@@ -856,14 +862,14 @@ theorem retryLoop_frame (l : List Entry) (w : World) (k : Nat) :
   | cons e rest ih =>
     rw [retryLoop_cons]
     split
-    · exact ⟨tframe_of_eqs rfl rfl rfl rfl rfl rfl rfl rfl rfl rfl rfl rfl rfl, rfl⟩
+    · exact ⟨tframe_of_eqs rfl rfl rfl rfl rfl rfl rfl rfl rfl rfl rfl rfl rfl rfl rfl, rfl⟩
     · have h0 : TFrame k w { w with totalRetries := w.totalRetries + 1 } :=
-        tframe_of_eqs rfl rfl rfl rfl rfl rfl rfl rfl rfl rfl rfl rfl rfl
+        tframe_of_eqs rfl rfl rfl rfl rfl rfl rfl rfl rfl rfl rfl rfl rfl rfl rfl
       obtain ⟨W, f, hc⟩ := retryTail_cases { w with totalRetries := w.totalRetries + 1 } k e rest
       rcases hc with ⟨h, _⟩ | ⟨_, h⟩ | ⟨_, h⟩
       · rw [h]; exact ⟨h0.trans f.frame, f.subEst⟩
       · rw [h]
-        exact ⟨h0.trans (f.frame.trans (tframe_of_eqs rfl rfl rfl rfl rfl rfl rfl rfl rfl rfl rfl rfl rfl)),
+        exact ⟨h0.trans (f.frame.trans (tframe_of_eqs rfl rfl rfl rfl rfl rfl rfl rfl rfl rfl rfl rfl rfl rfl rfl)),
           f.subEst⟩
       · rw [h]
         exact ⟨h0.trans (f.frame.trans (ih W).1), (ih W).2.trans f.subEst⟩
@@ -935,7 +941,7 @@ theorem runTask_retry_spec (w : World) (k : Nat) (hb : NoDupTopics w.broker.subs
         NoDupTopics (runTask w k .retry).broker.subs ∧ Pm (runTask w k .retry) = Pm w) := by
   have fr := retryLoop_frame w.retryQ { w with retryQ := [] } k
   refine ⟨(tframe_of_eqs (w := w) (w' := { w with retryQ := [] })
-    rfl rfl rfl rfl rfl rfl rfl rfl rfl rfl rfl rfl rfl).trans fr.1, fr.2, fun hs => ?_⟩
+    rfl rfl rfl rfl rfl rfl rfl rfl rfl rfl rfl rfl rfl rfl rfl).trans fr.1, fr.2, fun hs => ?_⟩
   exact retryLoop_spec w.retryQ { w with retryQ := [] } k rfl hb hs
 
 theorem runTask_disconnect_spec (w : World) (k : Nat) :
@@ -945,10 +951,10 @@ theorem runTask_disconnect_spec (w : World) (k : Nat) :
   simp only [runTask]
   split
   · exact ⟨⟨rfl, rfl, rfl, rfl, rfl, rfl, rfl,
-      fun j h => (alive_logPkt w k _ _ j) ▸ (alive_kill _ _ j h), fun _ => ⟨rfl, rfl⟩, by simp, rfl, rfl, rfl⟩,
+      fun j h => (alive_logPkt w k _ _ j) ▸ (alive_kill _ _ j h), fun _ => ⟨rfl, rfl⟩, by simp, rfl, rfl, rfl, rfl, rfl⟩,
       rfl, rfl, rfl, rfl⟩
   · exact ⟨⟨rfl, rfl, rfl, rfl, rfl, rfl, rfl,
-      fun j h => (alive_logPkt w k _ _ j) ▸ h, fun _ => ⟨rfl, rfl⟩, by simp, rfl, rfl, rfl⟩, rfl, rfl, rfl, rfl⟩
+      fun j h => (alive_logPkt w k _ _ j) ▸ h, fun _ => ⟨rfl, rfl⟩, by simp, rfl, rfl, rfl, rfl, rfl⟩, rfl, rfl, rfl, rfl⟩
 
 /-! ### the task goroutine -/
 
@@ -1016,7 +1022,9 @@ theorem callsOf_append_single (l : List Req) (r : Req) (m : SubMap) :
 /-- `sup`: the pending calls replayed on the broker's table cover the record, unless a `Resubscribe`
     is waiting, or the loop has exited AFTER DISCONNECT (then an accepted CONNACK with the session lost
     no longer re-subscribes). An exit caused by the cancellation of the context given to Connect
-    (`stopped = false`) does not need the exemption: no CONNACK is accepted afterwards. -/
+    (`stopped = false`) does not need the exemption: no CONNACK is accepted afterwards — also with a
+    dialer that ignores its context (`cfg.deafDialer`): the transport that arrives after the cancellation
+    gets CONNECT, is closed at once, and the loop exits without waiting for a CONNACK. -/
 structure Good (w : World) : Prop where
   nodupE : NoDupTopics w.subEst
   nodupB : NoDupTopics w.broker.subs
@@ -1122,23 +1130,23 @@ theorem runTask_req_frame (w : World) (k : Nat) (r : Req) : TFrame k w (runTask 
     simp only [runTask]
     split
     · exact (tframe_of_eqs (w := w) (w' := { w with subEst := applyUnsubs w.subEst ts })
-        rfl rfl rfl rfl rfl rfl rfl rfl rfl rfl rfl rfl rfl).trans (firstUnsub_spec _ k ts).frame
-    · exact tframe_of_eqs rfl rfl rfl rfl rfl rfl rfl rfl rfl rfl rfl rfl rfl
+        rfl rfl rfl rfl rfl rfl rfl rfl rfl rfl rfl rfl rfl rfl rfl).trans (firstUnsub_spec _ k ts).frame
+    · exact tframe_of_eqs rfl rfl rfl rfl rfl rfl rfl rfl rfl rfl rfl rfl rfl rfl rfl
   | pub m qos =>
     simp only [runTask]
     split
     · exact (firstPub_spec w k m qos).frame
     · split
-      · exact tframe_of_eqs rfl rfl rfl rfl rfl rfl rfl rfl rfl rfl rfl rfl rfl
+      · exact tframe_of_eqs rfl rfl rfl rfl rfl rfl rfl rfl rfl rfl rfl rfl rfl rfl rfl
       · exact TFrame.refl k w
 
 theorem runTask_frame (w : World) (k : Nat) (t : Task) : TFrame k w (runTask w k t) := by
   cases t with
   | req r => exact runTask_req_frame w k r
   | resubscribe => exact (tframe_of_eqs (k := k) (w := w) (w' := { w with subEst := [] })
-      rfl rfl rfl rfl rfl rfl rfl rfl rfl rfl rfl rfl rfl).trans (resubLoop_frame _ _ k)
+      rfl rfl rfl rfl rfl rfl rfl rfl rfl rfl rfl rfl rfl rfl rfl).trans (resubLoop_frame _ _ k)
   | retry => exact (tframe_of_eqs (k := k) (w := w) (w' := { w with retryQ := [] })
-      rfl rfl rfl rfl rfl rfl rfl rfl rfl rfl rfl rfl rfl).trans (retryLoop_frame _ _ k).1
+      rfl rfl rfl rfl rfl rfl rfl rfl rfl rfl rfl rfl rfl rfl rfl).trans (retryLoop_frame _ _ k).1
   | disconnect => exact (runTask_disconnect_spec w k).1
 
 
@@ -1341,9 +1349,10 @@ structure Same (w w' : World) : Prop where
   alive : ∀ j, (getConn w' j).alive = (getConn w j).alive
   stopped : w'.stopped = w.stopped
   ctxCancelled : w'.ctxCancelled = w.ctxCancelled
+  connectReturned : w'.connectReturned = w.connectReturned
 
 theorem Same.refl (w : World) : Same w w :=
-  ⟨rfl, rfl, rfl, rfl, rfl, rfl, rfl, rfl, rfl, rfl, rfl, rfl, rfl, rfl, fun _ => rfl, rfl, rfl⟩
+  ⟨rfl, rfl, rfl, rfl, rfl, rfl, rfl, rfl, rfl, rfl, rfl, rfl, rfl, rfl, fun _ => rfl, rfl, rfl, rfl⟩
 
 theorem Same.trans {a b c : World} (h1 : Same a b) (h2 : Same b c) : Same a c :=
   ⟨h2.stuck.trans h1.stuck, h2.taskQ.trans h1.taskQ, h2.accepted.trans h1.accepted,
@@ -1351,7 +1360,8 @@ theorem Same.trans {a b c : World} (h1 : Same a b) (h2 : Same b c) : Same a c :=
     h2.initialized.trans h1.initialized, h2.cli.trans h1.cli, h2.goroutine.trans h1.goroutine,
     h2.gConnected.trans h1.gConnected, h2.connReady.trans h1.connReady, h2.cfg.trans h1.cfg,
     h2.phase.trans h1.phase, h2.len.trans h1.len, fun j => (h2.alive j).trans (h1.alive j),
-    h2.stopped.trans h1.stopped, h2.ctxCancelled.trans h1.ctxCancelled⟩
+    h2.stopped.trans h1.stopped, h2.ctxCancelled.trans h1.ctxCancelled,
+    h2.connectReturned.trans h1.connectReturned⟩
 
 theorem deliverInbound_same (w : World) (k m qos : Nat) : Same w (deliverInbound w k m qos) := by
   unfold deliverInbound
@@ -1361,8 +1371,8 @@ theorem deliverInbound_same (w : World) (k m qos : Nat) : Same w (deliverInbound
   · split <;> split
     all_goals first
       | exact ⟨rfl, rfl, rfl, rfl, rfl, rfl, rfl, rfl, rfl, rfl, rfl, rfl, rfl, by simp,
-          fun j => alive_logPkt _ _ _ _ j, rfl, rfl⟩
-      | exact ⟨rfl, rfl, rfl, rfl, rfl, rfl, rfl, rfl, rfl, rfl, rfl, rfl, rfl, rfl, fun _ => rfl, rfl, rfl⟩
+          fun j => alive_logPkt _ _ _ _ j, rfl, rfl, rfl⟩
+      | exact ⟨rfl, rfl, rfl, rfl, rfl, rfl, rfl, rfl, rfl, rfl, rfl, rfl, rfl, rfl, fun _ => rfl, rfl, rfl, rfl⟩
 
 theorem inbFold_same (inb : List (Nat × Nat)) (w : World) (k : Nat) :
     Same w (inb.foldl (fun w (mq : Nat × Nat) => deliverInbound w k mq.1 mq.2) w) := by
@@ -1640,8 +1650,11 @@ theorem step_all (w : World) (e : Ev) (h : Inv w) (hk : InvK w) (hl : InvL w) :
       have hx : (w.phase = .exited ∧ w.stopped = true) → ∀ (P : Prop), P :=
         fun hx => by have := hx.1; rw [hi] at this; cases this
       split
-      · exact ⟨inv_of_eqs h rfl rfl rfl rfl rfl rfl (fun hh => hx hh _),
-          invK_of hk rfl rfl rfl id rfl rfl rfl (fun _ h => h), fun k hk => by cases hk⟩
+      · split
+        · exact ⟨inv_of_eqs h rfl rfl rfl rfl rfl rfl (fun hh => hx hh _),
+            invK_of hk rfl rfl rfl id rfl rfl rfl (fun _ h => h), fun k hk => by cases hk⟩
+        · exact ⟨inv_of_eqs h rfl rfl rfl rfl rfl rfl (fun hh => hx hh _),
+            invK_of hk rfl rfl rfl id rfl rfl rfl (fun _ h => h), fun k hk => by cases hk⟩
       · exact ⟨inv_of_eqs h rfl rfl rfl rfl rfl rfl (fun hh => hx hh _),
           invK_of hk rfl rfl rfl id rfl rfl rfl (fun _ h => h), fun k hk => by cases hk⟩
   | waitElapsed =>
@@ -1669,9 +1682,13 @@ theorem step_all (w : World) (e : Ev) (h : Inv w) (hk : InvK w) (hl : InvL w) :
           invK_of hk rfl rfl rfl id rfl rfl rfl (fun _ h => h), fun k hk => by cases hk⟩
       | dialGate =>
         simp only
-        exact ⟨inv_of_eqs h rfl rfl rfl rfl rfl rfl
-            (fun hh => by have := hh.1; rw [hph] at this; cases this),
-          invK_of hk rfl rfl rfl id rfl rfl rfl (fun _ h => h), fun k hk => by cases hk⟩
+        split
+        · exact ⟨inv_of_eqs h rfl rfl rfl rfl rfl rfl
+              (fun hh => by have := hh.1; rw [hph] at this; cases this),
+            invK_of hk rfl rfl rfl id rfl rfl rfl (fun _ h => h), fun k hk => by cases hk⟩
+        · exact ⟨inv_of_eqs h rfl rfl rfl rfl rfl rfl
+              (fun hh => by have := hh.1; rw [hph] at this; cases this),
+            invK_of hk rfl rfl rfl id rfl rfl rfl (fun _ h => h), fun k hk => by cases hk⟩
       | connackGate k =>
         simp only
         obtain ⟨a, b, c⟩ := cancelGate_all w k hph h hk hl
@@ -1698,22 +1715,34 @@ theorem step_all (w : World) (e : Ev) (h : Inv w) (hk : InvK w) (hl : InvL w) :
     split
     · exact ⟨h, hk, hl⟩
     · next hc =>
-      refine ⟨inv_of_eqs h rfl rfl rfl rfl rfl rfl (fun hx => by rw [hx.1] at hc; simp at hc), ?_, ?_⟩
-      · intro hi
+      have hd : w.phase = .dialGate := Decidable.of_not_not hc
+      split
+      · -- (deaf dialer) the transport arrives after the cancellation: a dead connection, the loop exits
+        refine ⟨progress_inv _ (inv_of_eqs h rfl rfl rfl rfl rfl rfl
+            (fun hx => by have := hx.1; rw [hd] at this; cases this)),
+          progress_invK _ ?_, progress_invL _ (fun k hk => by cases hk)⟩
+        intro hi
         obtain ⟨a, b, c, d⟩ := hk hi
-        have b' : w.stuck = false := b
-        refine ⟨a, b, fun hr => ?_, fun hg => by cases hg⟩
-        exfalso
-        cases hr with
-        | inr hr => cases hr
-        | inl hr =>
-          cases hg : w.goroutine with
-          | false => simp [d hg, hg] at hr
-          | true => cases hc : w.gConnected <;> simp [hg, hc, b'] at hr
-      · intro k hk
-        simp only [Phase.connackGate.injEq] at hk
-        subst hk
-        exact ⟨rfl, rfl, by simp⟩
+        refine ⟨a, b, fun _ k' hk' => ?_, fun hg => by cases hg⟩
+        have hk'' : w.conns.length = k' := Option.some.inj hk'
+        subst hk''
+        simp [getConn]
+      · refine ⟨inv_of_eqs h rfl rfl rfl rfl rfl rfl (fun hx => by rw [hx.1] at hc; simp at hc), ?_, ?_⟩
+        · intro hi
+          obtain ⟨a, b, c, d⟩ := hk hi
+          have b' : w.stuck = false := b
+          refine ⟨a, b, fun hr => ?_, fun hg => by cases hg⟩
+          exfalso
+          cases hr with
+          | inr hr => cases hr
+          | inl hr =>
+            cases hg : w.goroutine with
+            | false => simp [d hg, hg] at hr
+            | true => cases hc : w.gConnected <;> simp [hg, hc, b'] at hr
+        · intro k hk
+          simp only [Phase.connackGate.injEq] at hk
+          subst hk
+          exact ⟨rfl, rfl, by simp⟩
   | dialFail =>
     simp only [step]
     split
@@ -1724,9 +1753,13 @@ theorem step_all (w : World) (e : Ev) (h : Inv w) (hk : InvK w) (hl : InvL w) :
       · next hs =>
         exact ⟨inv_of_eqs h rfl rfl rfl rfl rfl rfl (fun _ => ⟨rfl, hs⟩),
           invK_of hk rfl rfl rfl id rfl rfl rfl (fun _ h => h), fun k hk => by cases hk⟩
-      · exact ⟨inv_of_eqs h rfl rfl rfl rfl rfl rfl
-            (fun hh => by have := hh.1; rw [hd] at this; cases this),
-          invK_of hk rfl rfl rfl id rfl rfl rfl (fun _ h => h), fun k hk => by cases hk⟩
+      · split
+        · exact ⟨inv_of_eqs h rfl rfl rfl rfl rfl rfl
+              (fun hh => by have := hh.1; rw [hd] at this; cases this),
+            invK_of hk rfl rfl rfl id rfl rfl rfl (fun _ h => h), fun k hk => by cases hk⟩
+        · exact ⟨inv_of_eqs h rfl rfl rfl rfl rfl rfl
+              (fun hh => by have := hh.1; rw [hd] at this; cases this),
+            invK_of hk rfl rfl rfl id rfl rfl rfl (fun _ h => h), fun k hk => by cases hk⟩
   | connackOk sp inb =>
     cases hph : w.phase with
     | connackGate k =>
@@ -1932,7 +1965,7 @@ theorem step_cancel_eqs (w : World) :
       refine ⟨?_, ?_, ?_, ?_⟩ <;> first | trivial | rfl | exact List.suffix_refl _
     | dialGate =>
       simp only
-      refine ⟨?_, ?_, ?_, ?_⟩ <;> first | trivial | rfl | exact List.suffix_refl _
+      split <;> (refine ⟨?_, ?_, ?_, ?_⟩ <;> first | trivial | rfl | exact List.suffix_refl _)
     | up k =>
       simp only
       refine ⟨?_, ?_, ?_, ?_⟩ <;> first | trivial | rfl | exact List.suffix_refl _
@@ -1955,7 +1988,9 @@ theorem step_initialized (w : World) (e : Ev) (h : (step w e).initialized = true
     left; simp only [step] at h
     split at h
     · exact h
-    · split at h <;> exact h
+    · split at h
+      · split at h <;> exact h
+      · exact h
   | waitElapsed => left; simp only [step] at h; split at h <;> exact h
   | cancelCtx => left; rw [(step_cancel_eqs w).1] at h; exact h
   | app r =>
@@ -1963,12 +1998,20 @@ theorem step_initialized (w : World) (e : Ev) (h : (step w e).initialized = true
     split at h
     · exact h
     · rw [(progress_fields _).1] at h; exact h
-  | dialOk i => left; simp only [step] at h; split at h <;> exact h
+  | dialOk i =>
+    left; simp only [step] at h
+    split at h
+    · exact h
+    · split at h
+      · rw [(progress_fields _).1] at h; exact h
+      · exact h
   | dialFail =>
     left; simp only [step] at h
     split at h
     · exact h
-    · split at h <;> exact h
+    · split at h
+      · exact h
+      · split at h <;> exact h
   | connackRefused =>
     left; simp only [step] at h
     split at h
@@ -2039,7 +2082,9 @@ theorem step_resub_mem (w : World) (e : Ev) (h : Task.resubscribe ∈ (step w e)
     left; simp only [step] at h
     split at h
     · exact h
-    · split at h <;> exact h
+    · split at h
+      · split at h <;> exact h
+      · exact h
   | waitElapsed => left; simp only [step] at h; split at h <;> exact h
   | cancelCtx => left; exact (step_cancel_eqs w).2.1.subset h
   | app r =>
@@ -2047,12 +2092,20 @@ theorem step_resub_mem (w : World) (e : Ev) (h : Task.resubscribe ∈ (step w e)
     split at h
     · exact h
     · exact push _ _ (by simp) (by rfl) h
-  | dialOk i => left; simp only [step] at h; split at h <;> exact h
+  | dialOk i =>
+    left; simp only [step] at h
+    split at h
+    · exact h
+    · split at h
+      · exact prog _ (by rfl) h
+      · exact h
   | dialFail =>
     left; simp only [step] at h
     split at h
     · exact h
-    · split at h <;> exact h
+    · split at h
+      · exact h
+      · split at h <;> exact h
   | connackRefused =>
     left; simp only [step] at h
     split at h
@@ -2313,7 +2366,9 @@ theorem step_initialized_mono (w : World) (e : Ev) (h : w.initialized = true) :
     simp only [step]
     split
     · exact h
-    · split <;> exact h
+    · split
+      · split <;> exact h
+      · exact h
   | waitElapsed => simp only [step]; split <;> exact h
   | cancelCtx => rw [(step_cancel_eqs w).1]; exact h
   | app r =>
@@ -2321,12 +2376,20 @@ theorem step_initialized_mono (w : World) (e : Ev) (h : w.initialized = true) :
     split
     · exact h
     · rw [(progress_fields _).1]; exact h
-  | dialOk i => simp only [step]; split <;> exact h
+  | dialOk i =>
+    simp only [step]
+    split
+    · exact h
+    · split
+      · rw [(progress_fields _).1]; exact h
+      · exact h
   | dialFail =>
     simp only [step]
     split
     · exact h
-    · split <;> exact h
+    · split
+      · exact h
+      · split <;> exact h
   | connackRefused =>
     simp only [step]
     split
@@ -2425,7 +2488,10 @@ theorem step_stopped_exited (w : World) (e : Ev) :
     split
     · exact ⟨fun h => Or.inl h, fun h0 h => h0 h⟩
     · split
-      · next hcc => exact ⟨fun h => Or.inl h, fun _ _ => Or.inr hcc⟩
+      · next hcc =>
+        split
+        · exact ⟨fun h => Or.inl h, fun _ h => by cases h⟩
+        · exact ⟨fun h => Or.inl h, fun _ _ => Or.inr hcc⟩
       · exact ⟨fun h => Or.inl h, fun _ h => by cases h⟩
   | waitElapsed =>
     simp only [step]
@@ -2444,7 +2510,7 @@ theorem step_stopped_exited (w : World) (e : Ev) :
       | connackGate k => simp only; rw [progress_ctx]; rfl
       | idle => simp only
       | backoff => simp only
-      | dialGate => simp only
+      | dialGate => simp only; split <;> rfl
       | up k => simp only
       | exited => simp only
   | app r =>
@@ -2456,14 +2522,20 @@ theorem step_stopped_exited (w : World) (e : Ev) :
     simp only [step]
     split
     · exact ⟨fun h => Or.inl h, fun h0 h => h0 h⟩
-    · exact ⟨fun h => Or.inl h, fun _ h => by cases h⟩
+    · split
+      · next hcc =>
+        exact ⟨fun h => Or.inl (by rw [progress_stopped] at h; exact h),
+          fun _ _ => Or.inr (by rw [progress_ctx]; exact hcc.1)⟩
+      · exact ⟨fun h => Or.inl h, fun _ h => by cases h⟩
   | dialFail =>
     simp only [step]
     split
     · exact ⟨fun h => Or.inl h, fun h0 h => h0 h⟩
     · split
       · next hs => exact ⟨fun h => Or.inl h, fun _ _ => Or.inl hs⟩
-      · exact ⟨fun h => Or.inl h, fun _ h => by cases h⟩
+      · split
+        · next hcc => exact ⟨fun h => Or.inl h, fun _ _ => Or.inr hcc.1⟩
+        · exact ⟨fun h => Or.inl h, fun _ h => by cases h⟩
   | connackOk sp inb =>
     cases hph : w.phase with
     | connackGate k =>
@@ -2576,19 +2648,29 @@ theorem step_ctx (w : World) (e : Ev) (h : (step w e).ctxCancelled = true) :
     left; simp only [step] at h
     split at h
     · exact h
-    · split at h <;> exact h
+    · split at h
+      · split at h <;> exact h
+      · exact h
   | waitElapsed => left; simp only [step] at h; split at h <;> exact h
   | app r =>
     left; simp only [step] at h
     split at h
     · exact h
     · rw [progress_ctx] at h; exact h
-  | dialOk i => left; simp only [step] at h; split at h <;> exact h
+  | dialOk i =>
+    left; simp only [step] at h
+    split at h
+    · exact h
+    · split at h
+      · rw [progress_ctx] at h; exact h
+      · exact h
   | dialFail =>
     left; simp only [step] at h
     split at h
     · exact h
-    · split at h <;> exact h
+    · split at h
+      · exact h
+      · split at h <;> exact h
   | connackOk sp inb =>
     left
     cases hph : w.phase with
@@ -2629,5 +2711,429 @@ theorem step_ctx (w : World) (e : Ev) (h : (step w e).ctxCancelled = true) :
     · have : (progress { pushTask w .disconnect with stopped := true }).ctxCancelled = true := by
         split at h <;> exact h
       rw [progress_ctx] at this; exact this
+
+/-! ### a dialer that ignores its context (`cfg.deafDialer`): configuration, `connectReturned`, and the
+    unreachability of the late-transport branches of `.dialOk` / `.dialFail` for every other dialer -/
+
+theorem runTasks_cfg (n : Nat) (w : World) :
+    (runTasks n w).cfg = w.cfg ∧ (runTasks n w).connectReturned = w.connectReturned := by
+  refine runTasks_induct (fun w' => w'.cfg = w.cfg ∧ w'.connectReturned = w.connectReturned)
+    ?_ ?_ ?_ runTask_cli n w ⟨rfl, rfl⟩
+  · intro w' h _ _ _; exact h
+  · intro w' k t rest h _ _ _ _ _
+    have fr := runTask_frame { w' with taskQ := rest, totalTasks := w'.totalTasks + 1 } k t
+    exact ⟨fr.cfg.trans h.1, fr.connectReturned.trans h.2⟩
+  · intro w' k h _ _; exact h
+
+theorem loopReact_cfg (w : World) :
+    (loopReact w).cfg = w.cfg ∧ (loopReact w).connectReturned = w.connectReturned := by
+  unfold loopReact
+  split
+  · split
+    · exact ⟨rfl, rfl⟩
+    · split <;> exact ⟨rfl, rfl⟩
+  · exact ⟨rfl, rfl⟩
+
+theorem progress_cfg (w : World) :
+    (progress w).cfg = w.cfg ∧ (progress w).connectReturned = w.connectReturned := by
+  unfold progress
+  exact ⟨(loopReact_cfg _).1.trans (runTasks_cfg _ w).1, (loopReact_cfg _).2.trans (runTasks_cfg _ w).2⟩
+
+theorem loopReact_phase (w : World) :
+    (∀ k, (loopReact w).phase = .up k → w.phase = .up k) ∧
+    (w.phase = .idle → (loopReact w).phase = .idle) := by
+  unfold loopReact
+  split
+  · next k hk =>
+    split
+    · exact ⟨fun _ h => h, fun h => h⟩
+    · split
+      · exact ⟨(fun _ h => by cases h), fun h => by rw [hk] at h; cases h⟩
+      · exact ⟨(fun _ h => by cases h), fun h => by rw [hk] at h; cases h⟩
+  · exact ⟨fun _ h => h, fun h => h⟩
+
+theorem progress_phase (w : World) :
+    (∀ k, (progress w).phase = .up k → w.phase = .up k) ∧
+    (w.phase = .idle → (progress w).phase = .idle) ∧
+    (w.phase = .exited → (progress w).phase = .exited) := by
+  have b := (runTasks_field (w.taskQ.length + 1) w).2.1
+  obtain ⟨l1, l2⟩ := loopReact_phase (runTasks (w.taskQ.length + 1) w)
+  exact ⟨fun k hk => b ▸ l1 k hk, fun hx => l2 (b ▸ hx), (progress_fields w).2.2⟩
+
+theorem connackPre_cfg (w : World) (k : Nat) (sp : Bool) (inb : List (Nat × Nat)) :
+    (connackPre w k sp inb).cfg = w.cfg ∧ (connackPre w k sp inb).connectReturned.isSome = true := by
+  have s := inbFold_same inb (cp1 w k sp) k
+  have h3 : (cp3 w k sp inb).cfg = w.cfg := s.cfg
+  have h4 : (cp3 w k sp inb).connectReturned.isSome = true := by
+    show (if _ then some sp else _ : Option Bool).isSome = true
+    split
+    · rfl
+    · next hx => cases hy : (List.foldl _ (cp1 w k sp) inb).connectReturned <;> simp_all
+  rw [← h3]
+  unfold connackPre
+  dsimp only
+  split <;> split <;> exact ⟨rfl, h4⟩
+
+theorem connectFailed_cfg (w : World) (k : Nat) :
+    (connectFailed w k).cfg = w.cfg ∧ (connectFailed w k).connectReturned = w.connectReturned ∧
+    ((connectFailed w k).phase = .exited ∨ (connectFailed w k).phase = .backoff) := by
+  unfold connectFailed
+  dsimp only
+  split
+  · exact ⟨rfl, rfl, Or.inl rfl⟩
+  · exact ⟨rfl, rfl, Or.inr rfl⟩
+
+/-- the configuration never changes -/
+theorem step_cfg (w : World) (e : Ev) : (step w e).cfg = w.cfg := by
+  cases e with
+  | start =>
+    simp only [step]
+    split
+    · rfl
+    · split
+      · split <;> rfl
+      · rfl
+  | waitElapsed => simp only [step]; split <;> rfl
+  | cancelCtx =>
+    simp only [step]
+    split
+    · rfl
+    · cases hph : w.phase with
+      | connackGate k => simp only; rw [(progress_cfg _).1]; rfl
+      | idle => simp only
+      | backoff => simp only
+      | dialGate => simp only; split <;> rfl
+      | up k => simp only
+      | exited => simp only
+  | app r =>
+    simp only [step]
+    split
+    · rfl
+    · rw [(progress_cfg _).1]; rfl
+  | dialOk i =>
+    simp only [step]
+    split
+    · rfl
+    · split
+      · rw [(progress_cfg _).1]
+      · rfl
+  | dialFail =>
+    simp only [step]
+    split
+    · rfl
+    · split
+      · rfl
+      · split <;> rfl
+  | connackOk sp inb =>
+    cases hph : w.phase with
+    | connackGate k => rw [step_connackOk w k sp inb hph, (progress_cfg _).1, (connackPre_cfg w k sp inb).1]
+    | idle => simp only [step, hph]
+    | dialGate => simp only [step, hph]
+    | backoff => simp only [step, hph]
+    | up k => simp only [step, hph]
+    | exited => simp only [step, hph]
+  | connackRefused =>
+    simp only [step]
+    split
+    · rw [(progress_cfg _).1, (connectFailed_cfg _ _).1]
+    · rfl
+  | connackNever =>
+    simp only [step]
+    split
+    · split
+      · rw [(progress_cfg _).1, (connectFailed_cfg _ _).1]
+      · rfl
+    · rfl
+  | peerClose =>
+    simp only [step]
+    split
+    · rw [(progress_cfg _).1]; rfl
+    · rfl
+  | inbound m qos =>
+    simp only [step]
+    split
+    · exact (deliverInbound_same _ _ _ _).cfg
+    · rfl
+  | handle hd => simp only [step]; split <;> rfl
+  | disconnect =>
+    simp only [step]
+    split
+    · rfl
+    · have : (progress { pushTask w .disconnect with stopped := true }).cfg = w.cfg := by
+        rw [(progress_cfg _).1]; rfl
+      split <;> exact this
+
+theorem exec_cfg (s : Script) : (exec s).cfg = s.cfg := by
+  have gen : ∀ (evs : List Ev) (w : World), (evs.foldl step w).cfg = w.cfg := by
+    intro evs
+    induction evs with
+    | nil => intro w; rfl
+    | cons e rest ih => intro w; exact (ih _).trans (step_cfg w e)
+  exact gen s.evs (init s)
+
+/-- as long as ReconnectClient.Connect has not returned a session: the loop is not in `.up`, and once
+    the context is cancelled the loop is not running (Connect not called yet, or exited) — for a dialer
+    that honours its context -/
+def CtxInv (w : World) : Prop :=
+  w.connectReturned.isNone = true →
+    (∀ k, w.phase ≠ .up k) ∧ (w.ctxCancelled = true → w.phase = .idle ∨ w.phase = .exited)
+
+theorem ctxInv_of {w w' : World} (h : CtxInv w) (h1 : w'.connectReturned = w.connectReturned)
+    (h2 : w'.ctxCancelled = w.ctxCancelled)
+    (hA : ∀ k, w'.phase = .up k → ∃ k', w.phase = .up k')
+    (hB : w.phase = .idle ∨ w.phase = .exited → w'.phase = .idle ∨ w'.phase = .exited) :
+    CtxInv w' := by
+  intro hn
+  obtain ⟨a, b⟩ := h (h1 ▸ hn)
+  refine ⟨fun k hk => ?_, fun hc => hB (b (h2 ▸ hc))⟩
+  obtain ⟨k', hk'⟩ := hA k hk
+  exact a k' hk'
+
+theorem ctxInv_progress (w : World) (h : CtxInv w) : CtxInv (progress w) := by
+  obtain ⟨p1, p2, p3⟩ := progress_phase w
+  refine ctxInv_of h (progress_cfg w).2 (progress_ctx w) (fun k hk => ⟨k, p1 k hk⟩) (fun hx => ?_)
+  cases hx with
+  | inl hx => exact Or.inl (p2 hx)
+  | inr hx => exact Or.inr (p3 hx)
+
+theorem step_ctxInv (w : World) (e : Ev) (hd : w.cfg.deafDialer = false) (h : CtxInv w) :
+    CtxInv (step w e) := by
+  cases e with
+  | start =>
+    simp only [step]
+    split
+    · exact h
+    · next hc =>
+      have hi : w.phase = .idle := Decidable.of_not_not hc
+      split
+      · simp only [hd, Bool.false_eq_true, if_false]
+        exact ctxInv_of h rfl rfl (fun k hk => by cases hk) (fun _ => Or.inr rfl)
+      · next hcc =>
+        intro _
+        exact ⟨(fun k hk => by cases hk), fun hx => absurd hx hcc⟩
+  | waitElapsed =>
+    simp only [step]
+    split
+    · next hc =>
+      exact ctxInv_of h rfl rfl (fun k hk => by cases hk)
+        (fun hx => by rw [hc] at hx; cases hx with
+          | inl hx => cases hx
+          | inr hx => cases hx)
+    · exact h
+  | cancelCtx =>
+    simp only [step]
+    split
+    · exact h
+    · next hg =>
+      have hn : w.connectReturned.isNone = true := by
+        cases hx : w.connectReturned with
+        | none => rfl
+        | some b => exact absurd (Or.inr (by rw [hx]; rfl)) hg
+      have hup := (h hn).1
+      cases hph : w.phase with
+      | connackGate k =>
+        simp only
+        intro _
+        have pex : ∀ w0 : World, w0.phase = .exited →
+            (∀ k, (progress w0).phase ≠ .up k) ∧
+            ((progress w0).ctxCancelled = true → (progress w0).phase = .idle ∨ (progress w0).phase = .exited) :=
+          fun w0 h0 => by
+            have hex := (progress_fields w0).2.2 h0
+            exact ⟨(fun k' hk' => by rw [hex] at hk'; cases hk'), fun _ => Or.inr hex⟩
+        apply pex
+        rfl
+      | idle => simp only; intro _; exact ⟨(fun k hk => by cases hk), fun _ => Or.inl rfl⟩
+      | backoff => simp only; intro _; exact ⟨(fun k hk => by cases hk), fun _ => Or.inr rfl⟩
+      | dialGate =>
+        simp only [hd, Bool.false_eq_true, if_false]
+        intro _; exact ⟨(fun k hk => by cases hk), fun _ => Or.inr rfl⟩
+      | up k => exact absurd hph (hup k)
+      | exited => simp only; intro _; exact ⟨(fun k hk => by cases hk), fun _ => Or.inr rfl⟩
+  | app r =>
+    simp only [step]
+    split
+    · exact ctxInv_of h rfl rfl (fun k hk => ⟨k, hk⟩) id
+    · exact ctxInv_progress _ (ctxInv_of h rfl rfl (fun k hk => ⟨k, hk⟩) id)
+  | dialOk i =>
+    simp only [step]
+    split
+    · exact h
+    · next hc =>
+      have hdg : w.phase = .dialGate := Decidable.of_not_not hc
+      have hB : w.phase = .idle ∨ w.phase = .exited → ∀ (P : Prop), P := fun hx => by
+        rw [hdg] at hx
+        cases hx with
+        | inl hx => cases hx
+        | inr hx => cases hx
+      split
+      · next hcc => exact hB ((h hcc.2).2 hcc.1) _
+      · exact ctxInv_of h rfl rfl (fun k hk => by cases hk) (fun hx => hB hx _)
+  | dialFail =>
+    simp only [step]
+    split
+    · exact h
+    · next hc =>
+      have hdg : w.phase = .dialGate := Decidable.of_not_not hc
+      split
+      · exact ctxInv_of h rfl rfl (fun k hk => by cases hk) (fun _ => Or.inr rfl)
+      · split
+        · exact ctxInv_of h rfl rfl (fun k hk => by cases hk) (fun _ => Or.inr rfl)
+        · exact ctxInv_of h rfl rfl (fun k hk => by cases hk)
+            (fun hx => by rw [hdg] at hx; cases hx with
+              | inl hx => cases hx
+              | inr hx => cases hx)
+  | connackOk sp inb =>
+    cases hph : w.phase with
+    | connackGate k =>
+      rw [step_connackOk w k sp inb hph]
+      intro hn
+      rw [(progress_cfg _).2] at hn
+      have := (connackPre_cfg w k sp inb).2
+      cases hx : (connackPre w k sp inb).connectReturned <;> simp_all
+    | idle => simp only [step, hph]; exact h
+    | dialGate => simp only [step, hph]; exact h
+    | backoff => simp only [step, hph]; exact h
+    | up k => simp only [step, hph]; exact h
+    | exited => simp only [step, hph]; exact h
+  | connackRefused =>
+    cases hph : w.phase with
+    | connackGate k =>
+      simp only [step, hph]
+      obtain ⟨_, c2, c3⟩ := connectFailed_cfg w k
+      refine ctxInv_progress _ (ctxInv_of h c2 (connectFailed_ctx w k) (fun k' hk' => ?_) (fun hx => ?_))
+      · cases c3 with
+        | inl c3 => rw [c3] at hk'; cases hk'
+        | inr c3 => rw [c3] at hk'; cases hk'
+      · rw [hph] at hx
+        cases hx with
+        | inl hx => cases hx
+        | inr hx => cases hx
+    | idle => simp only [step, hph]; exact h
+    | dialGate => simp only [step, hph]; exact h
+    | backoff => simp only [step, hph]; exact h
+    | up k => simp only [step, hph]; exact h
+    | exited => simp only [step, hph]; exact h
+  | connackNever =>
+    cases hph : w.phase with
+    | connackGate k =>
+      simp only [step, hph]
+      split
+      · obtain ⟨_, c2, c3⟩ := connectFailed_cfg w k
+        refine ctxInv_progress _ (ctxInv_of h c2 (connectFailed_ctx w k) (fun k' hk' => ?_) (fun hx => ?_))
+        · cases c3 with
+          | inl c3 => rw [c3] at hk'; cases hk'
+          | inr c3 => rw [c3] at hk'; cases hk'
+        · rw [hph] at hx
+          cases hx with
+          | inl hx => cases hx
+          | inr hx => cases hx
+      · exact h
+    | idle => simp only [step, hph]; exact h
+    | dialGate => simp only [step, hph]; exact h
+    | backoff => simp only [step, hph]; exact h
+    | up k => simp only [step, hph]; exact h
+    | exited => simp only [step, hph]; exact h
+  | peerClose =>
+    cases hph : w.phase with
+    | up k =>
+      simp only [step, hph]
+      exact ctxInv_progress _ (ctxInv_of h rfl rfl (fun k' hk' => ⟨k', hk'⟩) id)
+    | idle => simp only [step, hph]; exact h
+    | dialGate => simp only [step, hph]; exact h
+    | backoff => simp only [step, hph]; exact h
+    | connackGate k => simp only [step, hph]; exact h
+    | exited => simp only [step, hph]; exact h
+  | inbound m qos =>
+    cases hph : w.phase with
+    | up k =>
+      simp only [step, hph]
+      have sm := deliverInbound_same w k m qos
+      exact ctxInv_of h sm.connectReturned sm.ctxCancelled (fun k' hk' => ⟨k', sm.phase ▸ hk'⟩)
+        (fun hx => sm.phase ▸ hx)
+    | idle => simp only [step, hph]; exact h
+    | dialGate => simp only [step, hph]; exact h
+    | backoff => simp only [step, hph]; exact h
+    | connackGate k => simp only [step, hph]; exact h
+    | exited => simp only [step, hph]; exact h
+  | handle hd' =>
+    simp only [step]
+    split
+    · exact ctxInv_of h rfl rfl (fun k hk => ⟨k, hk⟩) id
+    · exact ctxInv_of h rfl rfl (fun k hk => ⟨k, hk⟩) id
+  | disconnect =>
+    simp only [step]
+    split
+    · exact h
+    · have a : CtxInv (progress { pushTask w .disconnect with stopped := true }) :=
+        ctxInv_progress _ (ctxInv_of h rfl rfl (fun k hk => ⟨k, hk⟩) id)
+      split
+      · exact ctxInv_of a rfl rfl (fun k hk => by cases hk) (fun _ => Or.inr rfl)
+      · exact ctxInv_of a rfl rfl (fun k hk => by cases hk) (fun _ => Or.inr rfl)
+      · exact a
+
+theorem exec_ctxInv (s : Script) (hd : s.cfg.deafDialer = false) : CtxInv (exec s) := by
+  have gen : ∀ (evs : List Ev) (w : World), w.cfg.deafDialer = false → CtxInv w →
+      CtxInv (evs.foldl step w) := by
+    intro evs
+    induction evs with
+    | nil => intro w _ h; exact h
+    | cons e rest ih =>
+      intro w hc h
+      exact ih _ (by rw [step_cfg]; exact hc) (step_ctxInv w e hc h)
+  exact gen s.evs (init s) hd (fun _ => ⟨(fun k hk => by cases hk), fun _ => Or.inl rfl⟩)
+
+/-- connections never come back to life while the task goroutine runs -/
+theorem runTasks_alive (n : Nat) (w : World) :
+    ∀ j, (getConn (runTasks n w) j).alive = true → (getConn w j).alive = true := by
+  refine runTasks_induct (fun w' => ∀ j, (getConn w' j).alive = true → (getConn w j).alive = true)
+    ?_ ?_ ?_ runTask_cli n w (fun _ h => h)
+  · intro w' h _ _ _; exact h
+  · intro w' k t rest h _ _ _ _ _ j hj
+    exact h j ((runTask_frame { w' with taskQ := rest, totalTasks := w'.totalTasks + 1 } k t).alive j hj)
+  · intro w' k h _ _ j hj
+    exact h j (alive_kill w' k j hj)
+
+theorem progress_alive (w : World) (j : Nat) (h : (getConn (progress w) j).alive = true) :
+    (getConn w j).alive = true := by
+  have h5 := (loopReact_eqs (runTasks (w.taskQ.length + 1) w)).2.2.2.2.2.2.2.2.2.2.2.1
+  apply runTasks_alive (w.taskQ.length + 1) w j
+  unfold progress at h
+  simpa [getConn, h5] using h
+
+theorem progress_len (w : World) : (progress w).conns.length = w.conns.length := by
+  have h5 := (loopReact_eqs (runTasks (w.taskQ.length + 1) w)).2.2.2.2.2.2.2.2.2.2.2.1
+  unfold progress
+  rw [h5, (runTasks_field _ w).2.2.2.2]
+
+theorem progress_cli (w : World) : (progress w).cli = w.cli := by
+  have h1 := (loopReact_eqs (runTasks (w.taskQ.length + 1) w)).2.2.2.2.2.2.2.1
+  unfold progress
+  rw [h1, (runTasks_field _ w).2.2.1]
+
+/-- the transport of a dialer that ignores its context arriving after the cancellation of the first
+    Connect (the new branch of `.dialOk`): one more connection, dead from the start and for ever, the
+    loop has exited, the client's flags and the accepted requests are what they were -/
+theorem step_dialOk_late (w : World) (i : Nat) (hph : w.phase = .dialGate)
+    (hc : w.ctxCancelled = true) (hn : w.connectReturned.isNone = true) :
+    (step w (.dialOk i)).phase = .exited ∧
+    (step w (.dialOk i)).conns.length = w.conns.length + 1 ∧
+    (getConn (step w (.dialOk i)) w.conns.length).alive = false ∧
+    (step w (.dialOk i)).cli = some w.conns.length ∧
+    (step w (.dialOk i)).stopped = w.stopped ∧ (step w (.dialOk i)).ctxCancelled = true ∧
+    (step w (.dialOk i)).connectReturned = w.connectReturned ∧
+    (step w (.dialOk i)).initialized = w.initialized ∧
+    (step w (.dialOk i)).accepted = w.accepted := by
+  have hcc : w.ctxCancelled = true ∧ w.connectReturned.isNone = true := ⟨hc, hn⟩
+  simp only [step, hph, ne_eq, not_true_eq_false, if_false, hcc, and_self, if_true]
+  refine ⟨(progress_fields _).2.2 rfl, ?_, ?_, ?_, progress_stopped _, ?_, (progress_cfg _).2,
+    (progress_fields _).1, (progress_more _).1⟩
+  · rw [progress_len]; simp
+  · cases hx : (getConn (progress _) w.conns.length).alive with
+    | false => rfl
+    | true =>
+      have := progress_alive _ _ hx
+      simp [getConn] at this
+  · rw [progress_cli]
+  · rw [progress_ctx]
 
 end Mqtt.Retry
